@@ -790,7 +790,9 @@ def edges_of_gfa1(D, lens):
         else:
             ce = canon_edge(*link_edge(l["a"], l["oa"], l["b"], l["ob"], l["cig"], lens))
             d = (l["a"], l["oa"], l["b"], l["ob"])
-            if seen.get(ce) == (d[2], inv[d[3]], d[0], inv[d[1]]) and seen.get(ce) != d:
+            compl = (d[2], inv[d[3]], d[0], inv[d[1]])
+            # (a hairpin is spelled like its own complement: a second identical hairpin line is dropped too)
+            if seen.get(ce) == compl and (seen.get(ce) != d or compl == d):
                 # the complement of a link already in the document IS that link (Link._process_not_unique):
                 # the library keeps the first spelling and drops this line
                 continue
